@@ -22,6 +22,7 @@ handler finishes the stream and awaits `stopped`; request tasks live in a JoinSe
 connection handler, which is shut down on every path from loop exit to return.
 Nothing on the request path, including the typed-RPC layer, spawns (closed world of task creation, C08.7 re-evaluated).
 What an abandoning caller makes fail on the serving side is returned as an error, never a panic (C06.1a/C06.2 re-evaluated for the request path).
+The tower layers never take a resource out of RAII's hands (no forget / add_permits): what a dropped request future held is released by destructors only.
 """
 TRUSTED = ["quinn: reset()/stop propagate to the peer's stopped()/read", "tokio JoinSet aborts its tasks when dropped or shut down"]
 NOT_DECIDED = ["promptness of remote cancellation", "QUIC stream-credit accounting over long histories", "abandonment at every instant (schedule quantifier)"]
